@@ -42,6 +42,9 @@ Fixpoint upto (m : nat) : list nat := match m with O => [O] | S k => upto k ++ [
 
 Definition dispatch_model (name : Z) (s : sx) : sx :=
   match name with
+  | 44 => AllRun2.run_knot2 s      (* C18: hypotheses / conclusion of Knot2.knot2_is_permanent_in_scope on a real snapshot *)
+  | 43 => AllRun.run_grid s        (* C20: hypotheses + conclusion of the DateSum grid theorems on one real event (stage 1) *)
+  | 42 => AllRun2.run_grid2 s      (* C20: the same on stage 2 (DateSum2) *)
   | 41 => AllRun.run_calls s        (* C17: the tracker calls the engine model makes in one event (+ the TrackerInc invariant on the snapshot) *)
   | 40 => AllRun2.run_jrn2_real s  (* C03 on stage 2: journey invariant on a snapshot + the real cumulative records + arrival nodes *)
   | 39 => Knot.run_deadlockedb s   (* C18: does a (stage-1) snapshot contain a knot, and does it satisfy the hypotheses of deadlock_is_permanent? *)
